@@ -996,6 +996,47 @@ func c16SDKHalf(c *core.Case, w *svcWorld) *core.Result {
 		}
 	}
 	c.Count("sdk_client_halves", 1)
+	if c.Rng.Intn(2) == 0 {
+		// the server forgets its clients (the collection is reset): the client's next sync is
+		// refused, it registers again with Connect() - the only way the SDK offers - and must be
+		// usable afterwards: a datatype it creates now is accepted and stored
+		c.Step("the collection is reset; sdkvictim syncs (refused), connects again and creates a new datatype")
+		out := bed.Guard(15e9, func(ctx context.Context) error {
+			_, err := w.b.Svc.ResetCollection(ctx, &model.CollectionMessage{Collection: "colA"})
+			return err
+		})
+		if out.Err != nil || out.TimedOut || out.Panic != "" {
+			c.Count("diag_reset_before_reregistration_failed", 1)
+			return nil
+		}
+		w.idle()
+		if res, _ := syncOnce("of a client the server has forgotten", true); res != nil {
+			return res
+		}
+		out = bed.Guard(10e9, func(ctx context.Context) error { return cl.Cli.Connect() })
+		if out.Panic != "" {
+			return c.Violation("client-panic", "a second Connect() of a connected client panicked: %s", out.Panic)
+		}
+		if out.Err != nil || out.TimedOut {
+			c.Count("diag_second_connect_failed", 1)
+			return nil
+		}
+		w.idle()
+		d3 := cl.Open(fmt.Sprintf("s3-%d", c.Index), "counter", bed.Create)
+		if d3 == nil {
+			return c.Inconclusive("SDK client cannot open a datatype after registering again")
+		}
+		crdt.Apply(d3.DT, crdt.Op{Kind: "inc", N: 1})
+		for try := 0; try < 3 && d3.DT.GetState() != model.StateOfDatatype_SUBSCRIBED; try++ {
+			if res, _ := syncOnce("after registering again", false); res != nil {
+				return res
+			}
+		}
+		if d3.DT.GetState() != model.StateOfDatatype_SUBSCRIBED {
+			return c.Violation("client-unusable-after-registering-again", "the server had forgotten the client (collection reset), its sync was refused, it called Connect() again without error, and a datatype it then created was not accepted in three syncs (state %v)", d3.DT.GetState())
+		}
+		c.Count("sdk_clients_registered_again_after_a_reset", 1)
+	}
 	return nil
 }
 
